@@ -73,6 +73,11 @@ def write_real_input(d, desc, allowed):
         return write_perturbed_input(d, desc)
     if desc.get("special") == "tiny":
         return write_tiny_input(d, desc)
+    if desc.get("special") == "intenum":
+        return write_intenum_input(d, desc)
+    if desc.get("special") == "shapes":
+        return pc.write_input(d, {"pkg": pkg_name(desc), "objects": pc._shape_objects(1)}, "openapi", tag=input_id(desc),
+                              extra={"_mapping": {"Shape": {"propertyName": "kind", "mapping": {"circle": "Circle", "square": "Square"}}}})
     if desc.get("special") == "constref":
         return pc.write_constref_cue(d, "cue_" + input_id(desc), pkg_name(desc))
     spec = real_spec(desc["abs"], pkg_name(desc))
@@ -164,6 +169,20 @@ def write_perturbed_input(d, desc):
     defs = json.loads(json.dumps(PERTURB_BASE))
     PERTURBATIONS[desc["variant"]](defs["Event"])
     doc = {"$schema": "http://json-schema.org/draft-07/schema#", "$ref": "#/definitions/Holder", "definitions": defs}
+    p = os.path.join(d, tag + ".schema.json")
+    open(p, "w").write(json.dumps(doc, indent=1))
+    return {"jsonschema": {"path": "%__config_dir%/" + os.path.basename(p), "package": pkg_name(desc)}}
+
+
+def write_intenum_input(d, desc):
+    """Enums the in-place enum passes write to: an integer enum (members named 0, 1, 2: RenameNumericEnumValues in the
+    TypeScript / Python chains) and a string enum whose values need trimming (trim_enum_values)."""
+    tag = input_id(desc)
+    doc = {"$schema": "http://json-schema.org/draft-07/schema#", "$ref": "#/definitions/Root", "definitions": {
+        "Root": {"type": "object", "properties": {"name": {"type": "string"}, "pos": {"$ref": "#/definitions/Position"},
+                                                  "pad": {"$ref": "#/definitions/Padded"}}},
+        "Position": {"type": "integer", "enum": [0, 1, 2]},
+        "Padded": {"type": "string", "enum": ["left ", " right", "both"]}}}
     p = os.path.join(d, tag + ".schema.json")
     open(p, "w").write(json.dumps(doc, indent=1))
     return {"jsonschema": {"path": "%__config_dir%/" + os.path.basename(p), "package": pkg_name(desc)}}
@@ -406,6 +425,32 @@ def run(ctx):
         for ls in vsubsets:
             for sv in (sched_variants if len(ls) > 1 else [None]):
                 plan.add_entry("langs", entry, ls, sched=sv)
+
+    # enums with NUMERIC member names (and values that need trimming): what RenameNumericEnumValues / TrimEnumValues write to
+    ienum = {"abs": isect_abs, "fmt": "jsonschema", "special": "intenum"}
+    epairs = [list(p) for p in itertools.combinations(full, 2)]
+    for ls in [[l] for l in full] + epairs + [list(full)]:
+        for sv in (sched_variants[:2] if len(ls) > 1 else [None]):
+            plan.add("langs", [ienum], ls, "types", sched=sv)
+
+    # --- UnrelatedInputIrrelevant, a THIRD package both the unrelated package and an existing one refer to (jsonschema / openapi
+    # inline foreign objects per document), and an unrelated package whose objects have the SAME bare names as existing ones with a
+    # rename_object aimed at it (discriminator mappings name their targets without a package)
+    tcommon = {"abs": isect_abs, "fmt": "jsonschema", "special": "tiny", "pkgname": "common", "obj": "Theme", "mode": "enum"}
+    tdash = {"abs": isect_abs, "fmt": "jsonschema", "special": "tiny", "pkgname": "dash", "obj": "Dashboard", "mode": "enum"}
+    tshapes = {"abs": isect_abs, "fmt": "openapi", "special": "shapes", "pkgname": "beta"}
+    extras3 = ["cbase", "zlast"]
+    p3 = [{"replace_reference": {"from": "dash.Mode", "to": "common.Mode"}}] + \
+         [{"replace_reference": {"from": nm + ".Mode", "to": "common.Mode"}} for nm in extras3] + \
+         [{"rename_object": {"from": nm + ".Circle", "to": "Round"}} for nm in extras3] + \
+         [{"omit": {"objects": ["dash.Mode"] + [nm + ".Mode" for nm in extras3]}}]      # the referring packages do not define Mode themselves
+    for langs3 in (["go", "jsonschema", "openapi", "php", "python", "typescript"], ["jsonschema", "openapi", "python", "typescript"]):
+        plan.add("xref3", [tcommon, tdash, tshapes], langs3, "types", passes=p3)
+        for nm in extras3:
+            for obj, mode in (("Dashboard", "int"), ("Circle", None)):
+                other = {"abs": isect_abs, "fmt": "jsonschema", "special": "tiny", "pkgname": nm, "obj": obj, "mode": mode}
+                plan.add("xref3", [tcommon, tdash, tshapes, other], langs3, "types", passes=p3)
+                plan.add("xref3", [other, tcommon, tdash, tshapes], langs3, "types", passes=p3)
 
     # --- InputOrderIndependent with MANY inputs: 14 one-object packages + two inputs of one shared package kept in their relative
     # order, several seeded permutations (grouping code may behave differently beyond a dozen schemas)
@@ -660,6 +705,8 @@ def run(ctx):
     entries.append(pc.constref_entry(idir, "im-constref"))
     entries.append(pc.veneer_params_entry(idir, "im-veneerparams"))
     entries.append(pc.veneers_entry(idir, "im-veneers"))
+    entries.append(make_job(idir, "im-intenum", [{"abs": {"pkg": "p", "coll": False, "objs": {"A": {"body": "x", "ncands": 0}}}, "fmt": "jsonschema",
+                                                 "special": "intenum"}], full, FLAGSETS["types"]))
     for e in entries:
         for sv in ([None, {"random": ctx.seed + 101}] if overlay else [None]):
             ijobs.append({"id": e["id"] + ("-rnd" if sv else ""), "yaml": e["yaml"], "chains": chains + e.get("chains", []), "sched": sv,
@@ -882,6 +929,8 @@ def replay(ctx):
                    "im-constref": lambda: pc.constref_entry(idir, "im-constref"),
                    "im-veneerparams": lambda: pc.veneer_params_entry(idir, "im-veneerparams"),
                    "im-veneers": lambda: pc.veneers_entry(idir, "im-veneers"),
+                   "im-intenum": lambda: make_job(idir, "im-intenum", [{"abs": {"pkg": "p", "coll": False, "objs": {"A": {"body": "x", "ncands": 0}}},
+                                                                        "fmt": "jsonschema", "special": "intenum"}], pc.LANGS, FLAGSETS["types"]),
                    "im-all": lambda: pc.feature_entry(idir, "im-all", {"pkgs": 2, "cands": 1, "defaults": 1, "compose": 2, "nested": 1, "collide": 1})}
         eid = r["entry"].replace("-rnd", "")
         e = entries[eid]()
